@@ -169,6 +169,32 @@ func runC03RenominateRace(c *core.Ctx) {
 	if conflictFirst {
 		c.Probe("role-switch-before-renomination")
 	}
+	// Either way A has lost the conflict by now and is the controlled agent. A few check ticks pass with every
+	// datagram lost (so the renomination, if it went out, stays unanswered): nothing A sends from here on
+	// carries USE-CANDIDATE or a nomination value - an unanswered renomination does not outlive the role
+	d.W.Lock()
+	wire1 := len(d.Wire)
+	d.W.Unlock()
+	for i := 0; i < 5; i++ {
+		for _, dg := range d.W.InFlight() {
+			d.W.Drop(dg)
+		}
+		d.S.Advance(ci)
+	}
+	d.W.Lock()
+	later := append([]*rig.WireEv(nil), d.Wire[wire1:]...)
+	d.W.Unlock()
+	for _, w := range later {
+		if !ids[w.D.SockID] || w.D.Dup {
+			continue
+		}
+		m := w.Msg()
+		if m.IsSTUN && m.Class == stun.ClassRequest && m.Method == stun.MethodBinding && (m.UseCandidate || m.Nomination != nil) {
+			c.Failf("C03/controlled-sent-use-candidate", "A lost a role conflict (tie-breaker 5 against %#x) and is controlled; %v later it still sent %s (conflict queued first: %v)", theirs, c.Now(), d.Tx.Describe(w.D), conflictFirst)
+			return
+		}
+	}
+	c.Probe("no-nomination-after-role-switch")
 	for _, dg := range d.W.InFlight() {
 		d.W.Drop(dg)
 	}
